@@ -148,6 +148,112 @@ Proof.
   vm_compute. repeat split; reflexivity.
 Qed.
 
+(* ---------- independence for an unrelated SET of tasks (clusters with internal links, whole subtrees) ----------
+   U (a predicate on task numbers) is unrelated, [c08_unrelated w U]: every task of U is a member of the
+   WBS; U is a union of whole top-level subtrees (with a task its parent and its children); no dependency
+   link between a task of U and a member outside U.  Links inside U, hierarchy inside U and links from U to
+   tasks outside the WBS ([k_ext]) are allowed.  [c08_mask_set U w] blanks every entry of U the way
+   [c08_mask] blanks one (the entry becomes [no_task]: outside the WBS, no hierarchy, no links, no work);
+   [c08_drop_set U w] deletes the entries and renumbers the remaining tasks ([c08_rank U t] = number of
+   positions below t that are not in U). *)
+From PJ Require Import Sched.C08IndepSet Sched.C08IndepSetSim Sched.C08IndepSetRen Sched.C08IndepSetRenSim
+     Sched.C08IndepSetTotal.
+
+Definition C08_indep_set_statement : Prop :=
+  forall cfg w (U : nat -> bool) st st2,
+    balance cfg = false -> WFin w -> c08_unrelated w U ->
+    forward cfg w = Ok st -> forward cfg (c08_mask_set U w) = Ok st2 ->
+    forall t, U t = false -> getd st t = getd st2 t.
+
+(* the blanked form: numbers kept *)
+Theorem C08_indep_set_masked : C08_indep_set_statement.
+Proof. exact C08_indep_set_mask_holds. Qed.
+
+(* the second run need not be assumed: the run on the blanked table cannot fail when the full run succeeds *)
+Theorem C08_indep_set_masked_total : forall cfg w (U : nat -> bool) st,
+  balance cfg = false -> WFin w -> c08_unrelated w U -> forward cfg w = Ok st ->
+  exists st2, forward cfg (c08_mask_set U w) = Ok st2 /\ forall t, U t = false -> getd st t = getd st2 t.
+Proof. exact C08_indep_set_mask_total. Qed.
+
+(* the final form: the tasks of U deleted from the table, the others renumbered *)
+Theorem C08_indep_set : forall cfg w (U : nat -> bool) st st',
+  balance cfg = false -> WFin w -> c08_unrelated w U ->
+  forward cfg w = Ok st -> forward cfg (c08_drop_set U w) = Ok st' ->
+  forall t, U t = false -> getd st t = getd st' (c08_rank U t).
+Proof. exact C08_indep_set_holds. Qed.
+
+(* ... and here too the second run need not be assumed: the run on the shorter table cannot fail when the full
+   run succeeds (a successful pass never nests deeper than the number of table entries) *)
+Theorem C08_indep_set_total : forall cfg w (U : nat -> bool) st,
+  balance cfg = false -> WFin w -> c08_unrelated w U -> forward cfg w = Ok st ->
+  exists st', forward cfg (c08_drop_set U w) = Ok st'
+              /\ forall t, U t = false -> getd st t = getd st' (c08_rank U t).
+Proof. exact C08_indep_set_total_holds. Qed.
+
+(* the same with the set given by the list of its elements and the hypothesis in executable form *)
+Theorem C08_unrelated_b_sound : forall w us, c08_unrelated_b w us = true -> c08_unrelated w (fun t => memb t us).
+Proof. exact c08_unrelated_b_sound. Qed.
+
+Theorem C08_indep_set_masked_list : forall cfg w us st st2,
+  balance cfg = false -> WFin w -> c08_unrelated_b w us = true ->
+  forward cfg w = Ok st -> forward cfg (c08_mask_set (fun t => memb t us) w) = Ok st2 ->
+  forall t, ~ In t us -> getd st t = getd st2 t.
+Proof. exact C08_indep_set_mask_list. Qed.
+
+Theorem C08_indep_set_list : forall cfg w us st st',
+  balance cfg = false -> WFin w -> c08_unrelated_b w us = true ->
+  forward cfg w = Ok st -> forward cfg (c08_drop_set (fun t => memb t us) w) = Ok st' ->
+  forall t, ~ In t us -> getd st t = getd st' (c08_rank (fun t => memb t us) t).
+Proof. exact C08_indep_set_list. Qed.
+
+(* one isolated task is the one-element case: [C08_indep_set_masked] contains [C08_indep_masked] *)
+Theorem C08_isolated_is_unrelated : forall w u, c08_isolated w u ->
+  c08_unrelated w (Nat.eqb u) /\ c08_mask_set (Nat.eqb u) w = c08_mask u w.
+Proof. exact c08_isolated_is_unrelated. Qed.
+
+(* non-vacuity: seven entries on the resource of [ex_cfg].  0: 96 units, successor 5.  1: a summary with
+   children 2 (64 units) and 3 (32 units, waits for 2 and for 6); 4: 32 units, waits for 3.  5: 32 units,
+   waits for 0.  6: a task outside the WBS with dates.  U = {1,2,3,4}: a two-level subtree with an internal
+   link, a link to a top-level leaf of U and a link to a task outside the WBS.  The WBS is well-formed, U is
+   unrelated (executable check), all three runs succeed, every task of U is scheduled in the full run
+   (task 3 on Tuesday), and tasks 0, 5 and the outside task 6 keep start, end, estimate and spent when U
+   is blanked or deleted (5 and 6 become 1 and 2). *)
+Definition ex2_task (par : option nat) (ch pr su : list nat) (e : option Z) : itask :=
+  {| k_parent := par; k_children := ch; k_preds := pr; k_succs := su; k_ext := false; k_milestone := false;
+     k_res := 0; k_est := e; k_spent := None; k_start := None; k_end := None; k_minstart := None |}.
+Definition ex2_ext : itask :=
+  {| k_parent := None; k_children := []; k_preds := []; k_succs := []; k_ext := true; k_milestone := false;
+     k_res := 0; k_est := None; k_spent := None; k_start := Some (19724 * DAY); k_end := Some (19724 * DAY + DAY / 2);
+     k_minstart := None |}.
+Definition ex2_w : list itask :=
+  [ ex2_task None [] [] [5%nat] (Some 96);
+    ex2_task None [2; 3]%nat [] [] None;
+    ex2_task (Some 1%nat) [] [] [3%nat] (Some 64);
+    ex2_task (Some 1%nat) [] [2; 6]%nat [4%nat] (Some 32);
+    ex2_task None [] [3%nat] [] (Some 32);
+    ex2_task None [] [0%nat] [] (Some 32);
+    ex2_ext ].
+Definition ex2_us : list nat := [1; 2; 3; 4]%nat.
+Definition ex2_U (t : nat) : bool := memb t ex2_us.
+Example C08_set_example :
+  wfin_b ex2_w = true /\ c08_unrelated_b ex2_w ex2_us = true
+  /\ map (c08_rank ex2_U) [0; 5; 6]%nat = [0; 1; 2]%nat
+  /\ length (c08_drop_set ex2_U ex2_w) = 3%nat
+  /\ match forward (ex_cfg false) ex2_w, forward (ex_cfg false) (c08_mask_set ex2_U ex2_w),
+           forward (ex_cfg false) (c08_drop_set ex2_U ex2_w) with
+     | Ok st, Ok st2, Ok st' =>
+         forallb (fun u => match d_start (getd st u), d_end (getd st u) with Some _, Some _ => true | _, _ => false end)
+                 ex2_us = true
+         /\ d_start (getd st 3) = Some (19724 * DAY) /\ d_end (getd st 3) = Some (19724 * DAY + DAY / 2)
+         /\ d_start (getd st 0) = Some (19723 * DAY) /\ d_end (getd st 0) = Some (19724 * DAY + DAY / 2)
+         /\ d_start (getd st 5) = Some (19724 * DAY) /\ d_end (getd st 5) = Some (19724 * DAY + DAY / 2)
+         /\ getd st2 0 = getd st 0 /\ getd st2 5 = getd st 5 /\ getd st2 6 = getd st 6
+         /\ getd st' 0 = getd st 0 /\ getd st' 1 = getd st 5 /\ getd st' 2 = getd st 6
+         /\ d_start (getd st2 3) = None
+     | _, _, _ => False
+     end.
+Proof. vm_compute. repeat split; reflexivity. Qed.
+
 Print Assumptions C08_tight.
 Print Assumptions C08_tight_leaves.
 Print Assumptions C08_encode.
@@ -162,3 +268,12 @@ Print Assumptions C08_oracle_order_complete.
 Print Assumptions C08_model_passes_oracle.
 Print Assumptions C08_model_passes_oracle_obs.
 Print Assumptions C08_example.
+Print Assumptions C08_indep_set_masked.
+Print Assumptions C08_indep_set_masked_total.
+Print Assumptions C08_indep_set.
+Print Assumptions C08_indep_set_total.
+Print Assumptions C08_unrelated_b_sound.
+Print Assumptions C08_indep_set_masked_list.
+Print Assumptions C08_indep_set_list.
+Print Assumptions C08_isolated_is_unrelated.
+Print Assumptions C08_set_example.
